@@ -33,6 +33,7 @@ ASSUMPTIONS = [
     'if update or save raised, C03 demands nothing (C10/C18 judge those runs)',
     'sub-directory updates are judged inside the updated directory plus the MANIFEST chain above it',
     'one small base tree (4 files, 3 directories, nesting 2); contents incl. an empty file',
+    'interface cli_create: `gemato create` run on the root of a tree that already carries Manifests (every prior state)',
     'interface lib_same: the two rounds of a history run on ONE loader object (update+save, edit, update+save), with '
     'options under which the first save renames Manifests (compression / decompression) and without',
 ]
@@ -138,7 +139,7 @@ def run_update(root, iface, upath, o, create, keep=None):
             m.save_manifests(force=o['force'])
             return 0
         return gem.call(go)
-    argv = ['create' if create else 'update']
+    argv = ['create' if (create or iface == 'cli_create') else 'update']
     if o['hashes'] is not None:
         argv += ['-H', ' '.join(o['hashes'])]
     if o['force']:
@@ -262,7 +263,7 @@ def check_case(case, scratch, stats=None):
             break
         if upath and not os.path.isdir(os.path.join(root, upath)):
             break
-        if iface == 'cli' and o['sort'] and o['profile'] == 'default':
+        if iface in ('cli', 'cli_create') and o['sort'] and o['profile'] == 'default':
             o = dict(o, sort=False)      # the CLI has no sort switch
         r = run_update(root, iface, upath, o, create, keep)
         ok = (r['kind'] == 'ret' and r.get('value') == 0)
@@ -318,9 +319,11 @@ def run_shard(spec, tier, seed, scratch):
     tj = tree.to_json()
     opts = OPTS_QUICK if tier == 'quick' else opts_all()
     edits = scen.EDITS
-    for edit, upath, (oi, o), iface in itertools.product(edits, TARGETS, enumerate(opts), ('lib', 'cli')):
-        if tier == 'quick' and iface == 'cli' and oi not in (0, 3, 6):
+    for edit, upath, (oi, o), iface in itertools.product(edits, TARGETS, enumerate(opts), ('lib', 'cli', 'cli_create')):
+        if tier == 'quick' and iface != 'lib' and oi not in (0, 3, 6):
             continue
+        if iface == 'cli_create' and (upath or (tier == 'quick' and edit not in ('none', 'alter_size', 'add_dir'))):
+            continue        # `gemato create` on a tree that already has Manifests: whole tree only
         desc = (name, edit, upath, oi, iface)
         case = {'tree': tj, 'prior': name, 'rounds': [(edit, upath, o, iface)], 'desc': repr(desc)}
         n0 = stats.compared
